@@ -1500,6 +1500,8 @@ class FnLower:
     def e_InitListExpr(self, n):
         inner = n.get('inner', []) or []
         r = self.ctx.rec_of(type_str(n['type']))
+        if r is not None and type_str(n['type']).rstrip().rstrip('const ').rstrip().endswith('*'):
+            r = None          # T*{x}: a pointer, not an aggregate of type T
         if r is None:
             if len(inner) == 1:
                 return self.expr(inner[0])
